@@ -15,10 +15,14 @@ import (
 // the stream did not end, the transport failed), or claim to be one through an
 // Is method; the library must hand back the very value it was given.
 type injectedError struct {
-	id   int
-	wrap error
-	is   error
+	id      int
+	wrap    error
+	is      error
+	timeout bool // the error says it is a timeout (net.Error style): still an error, and still sticky
 }
+
+func (e *injectedError) Timeout() bool   { return e.timeout }
+func (e *injectedError) Temporary() bool { return e.timeout }
 
 func (e *injectedError) Error() string {
 	if e.wrap != nil {
@@ -36,7 +40,7 @@ var injectCounter int
 func newInjected() error { injectCounter++; return &injectedError{id: injectCounter} }
 
 // errKinds: the kinds of injected source errors (RSource.ErrKind).
-var errKinds = []string{"", "wrapEOF", "wrapUxEOF", "wrapBufFull", "isEOF"}
+var errKinds = []string{"", "wrapEOF", "wrapUxEOF", "wrapBufFull", "isEOF", "timeout"}
 
 func newInjectedKind(kind string) error {
 	injectCounter++
@@ -50,6 +54,8 @@ func newInjectedKind(kind string) error {
 		e.wrap = bufio.ErrBufferFull
 	case "isEOF":
 		e.is = io.EOF
+	case "timeout":
+		e.timeout = true
 	}
 	return e
 }
